@@ -574,7 +574,7 @@ func TestVerif(t *testing.T) {
 	r.Bound("max_content_len_for_3_appends", maxLen3)
 	r.Bound("previous_job", "for start=reset and read-buffer sizes 1, 8: also with the worker having just read another file that ends in the unterminated line \"ab\", and serving that file (grown by an unterminated \"c\") between the rounds")
 	r.Bound("append_notification", "write (isWrite=true) / create-style (isWrite=false); quick: write for read-buffer sizes 1,3,5 and create-style for 2,4,8; thorough: both for contents up to length 8, as quick above")
-	r.Bound("starts", "reset; continue from every line boundary of the initial content; tail (initial content non-empty; read-buffer sizes 1, 3, 8 only)")
+	r.Bound("starts", "reset; continue from every line boundary of the initial content; tail (initial content empty or not; read-buffer sizes 1, 3, 8 only)")
 	r.Rule("every content over {a,b,\\n} up to the length bound x every split into successive appends (first part may be empty) x read-buffer size x (max_event_size, cut_off) x start (reset / continue at every line boundary of the first part / tail); " +
 		"non-trivial = a delivered line crosses a read-chunk or append boundary, or a line is over the limit; distinct = distinct (limit, start, content, sequence of (offset, data, data after checkInputBytes))")
 	r.Assume("one worker goroutine per case; at most one other file served before; appends happen only while the job is done (no writer concurrent with a read round); no truncation, rotation, symlinks or lz4")
@@ -605,7 +605,8 @@ func TestVerif(t *testing.T) {
 							starts = append(starts, st{file.VerifStartContinue, i + 1})
 						}
 					}
-					if len(parts[0]) > 0 {
+					// tail start; with an empty file at creation nothing may be skipped (there is no line to be in the middle of)
+					if len(parts[0]) > 0 || len(parts) == 2 {
 						starts = append(starts, st{file.VerifStartTail, 0})
 					}
 				}
